@@ -152,7 +152,12 @@ func (d *Decoder) processCommonAttr(ectx evaluationContext, startElement xml.Sta
 		case "http://www.w3.org/XML/1998/namespace":
 			switch attr.Name.Local {
 			case "lang":
-				ectx.Language = &attr.Value
+				if attr.Value == "" {
+					// [spec 2.7] xml:lang="" removes any inherited language
+					ectx.Language = nil
+				} else {
+					ectx.Language = &attr.Value
+				}
 			case "base":
 				baseIRI := ectx.ResolveIRI(attr.Value)
 
